@@ -86,6 +86,11 @@ Definition ct_parse (s : bytes) : ctype :=
   | None => CtString s
   end.
 
+(* read_http_body_to_file for a body of known length: exactly the next [len] bytes of what is still
+   unread (connection buffer, then socket), or Truncated when the peer ends the stream earlier *)
+Definition body_to_file_known (len : N) (avail : bytes) : option bytes :=
+  if N.of_nat (length avail) <? len then None else Some (firstn (N.to_nat len) avail).
+
 (* ---- transfer-encoding ---- *)
 Definition opt_is (o : option bytes) (lit : bytes) : bool :=
   match o with Some s => beq s lit | None => false end.
